@@ -21,14 +21,14 @@ use crate::{
 
 #[derive(Serialize, Deserialize, Debug)]
 pub enum LShip {
-    Lock(RwLock<u64>),
+    Lock(RwLock<Item>),
     Nothing,
 }
 
 #[derive(Clone, Debug)]
 pub enum Op {
     Read { hold_ms: u64 },
-    Write { hold_ms: u64, commit: bool },
+    Write { hold_ms: u64, commit: bool, poison: bool },
     Pause(u64),
 }
 
@@ -56,7 +56,7 @@ fn tick(clock: &AtomicU64) -> u64 {
     clock.fetch_add(1, Ordering::SeqCst) + 1
 }
 
-async fn client_task(id: usize, lock: RwLock<u64>, script: Vec<Op>, clock: Arc<AtomicU64>, hist: Arc<Mutex<Vec<Rec>>>) {
+async fn client_task(id: usize, lock: RwLock<Item>, script: Vec<Op>, remote: bool, clock: Arc<AtomicU64>, hist: Arc<Mutex<Vec<Rec>>>) {
     for (k, op) in script.into_iter().enumerate() {
         crate::simnet::bump_progress();
         match op {
@@ -72,14 +72,14 @@ async fn client_task(id: usize, lock: RwLock<u64>, script: Vec<Op>, clock: Arc<A
                         {
                             let mut h = hist.lock().unwrap();
                             h[idx].acquired = Some(tick(&clock));
-                            h[idx].value = *g;
+                            h[idx].value = g.id;
                         }
                         crate::simnet::bump_progress();
                         if hold_ms > 0 {
                             tokio::time::sleep(Duration::from_millis(hold_ms)).await;
                         }
                         // the value must not change while the guard is held
-                        let still = *g;
+                        let still = g.id;
                         let mut h = hist.lock().unwrap();
                         if still != h[idx].value {
                             h[idx].error = Some(format!("value changed under the read guard: {} -> {still}", h[idx].value));
@@ -90,7 +90,8 @@ async fn client_task(id: usize, lock: RwLock<u64>, script: Vec<Op>, clock: Arc<A
                     Err(e) => hist.lock().unwrap()[idx].error = Some(e.to_string()),
                 }
             }
-            Op::Write { hold_ms, commit } => {
+            Op::Write { hold_ms, commit, poison } => {
+                let poison = poison && remote && commit;
                 let newv = ((id as u64 + 1) << 20) | (k as u64 + 1);
                 let idx = {
                     let mut h = hist.lock().unwrap();
@@ -102,19 +103,26 @@ async fn client_task(id: usize, lock: RwLock<u64>, script: Vec<Op>, clock: Arc<A
                         {
                             let mut h = hist.lock().unwrap();
                             h[idx].acquired = Some(tick(&clock));
-                            h[idx].seen = *g;
+                            h[idx].seen = g.id;
                         }
                         crate::simnet::bump_progress();
                         if hold_ms > 0 {
                             tokio::time::sleep(Duration::from_millis(hold_ms)).await;
                         }
-                        *g = newv;
+                        *g = if poison { Item::poisoned(newv, 4) } else { Item::new(newv, 4) };
                         if commit {
                             hist.lock().unwrap()[idx].commit_call = Some(tick(&clock));
                             let r = g.commit().await;
                             let mut h = hist.lock().unwrap();
                             match r {
-                                Ok(()) => h[idx].committed = true,
+                                Ok(()) => {
+                                    h[idx].committed = true;
+                                    if poison {
+                                        h[idx].error = Some("commit() returned Ok although the new value could not be transmitted".into());
+                                    }
+                                }
+                                // a commit whose value cannot be transmitted fails; the value stays unchanged
+                                Err(_) if poison => {}
                                 Err(e) => h[idx].error = Some(e.to_string()),
                             }
                             h[idx].released = Some(tick(&clock));
@@ -134,7 +142,7 @@ pub fn gen_script(rng: &mut Rng, n: usize) -> Vec<Op> {
     (0..n)
         .map(|_| match rng.below(10) {
             0..=4 => Op::Read { hold_ms: *rng.pick(&[0u64, 0, 1, 3, 10]) },
-            5..=7 => Op::Write { hold_ms: *rng.pick(&[0u64, 0, 1, 5]), commit: rng.chance(75) },
+            5..=7 => Op::Write { hold_ms: *rng.pick(&[0u64, 0, 1, 5]), commit: rng.chance(75), poison: rng.chance(12) },
             _ => Op::Pause(rng.below(6)),
         })
         .collect()
@@ -246,21 +254,21 @@ pub fn run_one(run: u64, seed: u64) -> RunOut {
     install_h1(rng.fork(1), h1, 0);
     let hist: Arc<Mutex<Vec<Rec>>> = Arc::new(Mutex::new(Vec::new()));
     let res: Result<(), String> = run_virtual(seed, async {
-        let owner = Owner::<u64>::new(0);
+        let owner = Owner::<Item>::new(Item::new(0, 4));
         let lock = owner.rw_lock();
         let clock = Arc::new(AtomicU64::new(0));
         let mut tasks = Vec::new();
         let mut keep: Vec<Box<dyn std::any::Any + Send>> = Vec::new();
         let mut net0 = None;
         for (i, s) in scripts.iter().take(n_local).enumerate() {
-            tasks.push(crate::sched::spawn(client_task(i, lock.clone(), s.clone(), clock.clone(), hist.clone())));
+            tasks.push(crate::sched::spawn(client_task(i, lock.clone(), s.clone(), false, clock.clone(), hist.clone())));
         }
         if n_remote > 0 {
             let conn = connect_rch::<LShip, LShip>(cfg_a.clone(), cfg_b.clone(), netcfg.clone(), &mut rng).await?;
             let RchConn { net, a, b, sched } = conn;
             let RchEnd { mut tx, rx: rxa, conn: ca } = a;
             let RchEnd { tx: txb, mut rx, conn: cb } = b;
-            let mut first: Option<RwLock<u64>> = None;
+            let mut first: Option<RwLock<Item>> = None;
             for i in 0..n_remote {
                 let remote_lock = if share_cache && first.is_some() {
                     // clones on the remote endpoint share one cache
@@ -275,7 +283,7 @@ pub fn run_one(run: u64, seed: u64) -> RunOut {
                     }
                     l
                 };
-                tasks.push(crate::sched::spawn(client_task(n_local + i, remote_lock, scripts[n_local + i].clone(), clock.clone(), hist.clone())));
+                tasks.push(crate::sched::spawn(client_task(n_local + i, remote_lock, scripts[n_local + i].clone(), true, clock.clone(), hist.clone())));
             }
             net0 = Some(net);
             keep.push(Box::new((tx, rxa, ca, txb, rx, cb, sched, first)));
@@ -290,7 +298,7 @@ pub fn run_one(run: u64, seed: u64) -> RunOut {
         }
         settle().await;
         let all_done = tasks.iter().all(|t| t.is_finished());
-        let final_value = if all_done { or_quiescent(lock.read()).await.and_then(|r| r.ok()).map(|g| *g) } else { None };
+        let final_value = if all_done { or_quiescent(lock.read()).await.and_then(|r| r.ok()).map(|g| g.id) } else { None };
         let h = hist.lock().unwrap().clone();
         let mut bad = check_history(&h, final_value);
         if all_done && final_value.is_none() {
